@@ -49,6 +49,24 @@ var constructs = []construct{
 	{name: "set-open", format: fPolicyText, build: func(n int) string { return when(rep("[", n)) }},
 	{name: "record", format: fPolicyText, build: func(n int) string { return when(rep("{a:", n) + "1" + rep("}", n)) }},
 	{name: "record-open", format: fPolicyText, build: func(n int) string { return when(rep("{a:", n)) }},
+	// the same nestings around a leaf that is not a constant (nothing folds away at compile time: work that is repeated
+	// per level shows as exponential time)
+	{name: "record-var-leaf", format: fPolicyText, build: func(n int) string { return when(rep("{a:", n) + "principal" + rep("}", n) + " == context") }},
+	{name: "set-var-leaf", format: fPolicyText, build: func(n int) string { return when(rep("[", n) + "context.x" + rep("]", n) + ".isEmpty()") }},
+	{name: "not-var-leaf", format: fPolicyText, build: func(n int) string { return when(rep("!", n) + "context.b") }},
+	{name: "neg-var-leaf", format: fPolicyText, build: func(n int) string { return when(rep("-", n) + "context.n == 1") }},
+	{name: "paren-var-leaf", format: fPolicyText, build: func(n int) string { return when(rep("(", n) + "context.b" + rep(")", n)) }},
+	{name: "if-var-leaf", format: fPolicyText, build: func(n int) string {
+		return when(rep("if context.b then 1 else (", n) + "context.n" + rep(")", n) + " == 1")
+	}},
+	{name: "and-right-var-leaf", format: fPolicyText, build: func(n int) string { return when(rep("context.b && (", n) + "context.b" + rep(")", n)) }},
+	{name: "call-arg-var-leaf", format: fPolicyText, build: func(n int) string { return when(rep("ip(", n) + "context.s" + rep(")", n) + ".isIpv4()") }},
+	{name: "method-arg-var-leaf", format: fPolicyText, build: func(n int) string {
+		return when(rep("[1].contains(", n) + "context.n" + rep(")", n))
+	}},
+	{name: "record-set-mixed-var-leaf", format: fPolicyText, build: func(n int) string {
+		return when(rep("{a:[", n/2) + "resource" + rep("]}", n/2) + " == context")
+	}},
 	{name: "if-else-chain", format: fPolicyText, quick: 10000, build: func(n int) string { return when(rep("if true then 1 else ", n) + "1") }},
 	{name: "if-cond-chain", format: fPolicyText, build: func(n int) string { return when(rep("if ", n) + "true" + rep(" then 1 else 1", n)) }},
 	{name: "if-open", format: fPolicyText, build: func(n int) string { return when(rep("if ", n)) }},
@@ -116,6 +134,13 @@ var constructs = []construct{
 	{name: "json-record-stray", format: fPolicyJSON, build: func(n int) string { return jpol(rep(`{"Record":{"a":`, n) + `{"Value":1}` + rep(`},"zz":[]}`, n)) }},
 	{name: "json-if-stray", format: fPolicyJSON, build: func(n int) string {
 		return jpol(rep(`{"if-then-else":{"if":{"Value":true},"then":{"Value":1},"else":`, n) + `{"Value":1}` + rep(`},"zz":[]}`, n))
+	}},
+	{name: "json-record-var-leaf", format: fPolicyJSON, build: func(n int) string {
+		return jpol(rep(`{"Record":{"a":`, n) + `{"Var":"principal"}` + rep(`}}`, n))
+	}},
+	{name: "json-set-var-leaf", format: fPolicyJSON, build: func(n int) string { return jpol(rep(`{"Set":[`, n) + `{"Var":"context"}` + rep(`]}`, n)) }},
+	{name: "json-not-var-leaf", format: fPolicyJSON, build: func(n int) string {
+		return jpol(rep(`{"!":{"arg":`, n) + `{".":{"left":{"Var":"context"},"attr":"b"}}` + rep(`}}`, n))
 	}},
 	{name: "json-value-set", format: fPolicyJSON, maxN: 3000, extra: overJSONLimit, build: func(n int) string { return jpol(`{"Value":` + rep("[", n) + rep("]", n) + `}`) }},
 	{name: "json-wide-set", format: fPolicyJSON, build: func(n int) string { return jpol(`{"Set":[` + rep(`{"Value":1},`, n) + `{"Value":1}]}`) }},
